@@ -9,7 +9,7 @@ use qrlew::{ast, data_type::DataTyped as _, namer, relation::{Relation, Variant 
 use serde_json::{json, Value as J};
 use std::hash::{Hash, Hasher};
 
-const EXTRA: [(&str, bool); 12] = [
+const EXTRA: [(&str, bool); 18] = [
     ("SELECT random() AS r, a AS a FROM t1", false),
     ("SELECT a AS a FROM t1 WHERE random() < 0.5", false),
     ("SELECT a + 1, b * 2, a + 1 FROM t1", false),
@@ -22,6 +22,13 @@ const EXTRA: [(&str, bool); 12] = [
     ("SELECT upper(d), count(DISTINCT a) FROM t1 GROUP BY upper(d)", false),
     ("SELECT CASE WHEN b > 0 THEN 1 ELSE 0 END, d FROM t1 ORDER BY d, 1", false),
     ("SELECT a AS a, k AS k FROM t1 LEFT JOIN t3 ON t1.e = t3.k ORDER BY a, k", true),
+    // the same expression in two roles (select item and HAVING / GROUP BY / ORDER BY / WHERE)
+    ("SELECT b, count(a) > 2 FROM t1 GROUP BY b HAVING count(a) > 2", false),
+    ("SELECT b, sum(c) FROM t1 GROUP BY b HAVING sum(c) > 10", false),
+    ("SELECT b + 1, count(*) FROM t1 GROUP BY b + 1", false),
+    ("SELECT a + b FROM t1 WHERE a + b > 0 ORDER BY a + b", false),
+    ("SELECT count(*), count(*) FROM t1 HAVING count(*) > 0", false),
+    ("SELECT d, max(c) - min(c) FROM t1 GROUP BY d HAVING max(c) - min(c) >= 0", false),
 ];
 
 pub fn gen(rng: &mut Rng, k: usize, _tier: &str) -> J {
